@@ -69,6 +69,25 @@ pub fn gen_seed(p: &mut Prng, len: usize, word_bytes: usize, allow_zero: bool) -
             8 => {
                 // words related to each other: equal, negated, complemented, xor-to-zero, zero
                 p.fill(&mut s);
+                let nw0 = len / word_bytes;
+                let sub_kind = p.below(3);
+                if sub_kind < 2 {
+                    // words drawn from a tiny pool {0, A, B, -A, !A, A with a zero low/high byte}
+                    let mask0 = if word_bytes == 4 { 0xffff_ffffu64 } else { u64::MAX };
+                    let a0 = p.u64() & mask0;
+                    let b0 = p.u64() & mask0;
+                    let pool = [0u64, a0, b0, a0.wrapping_neg() & mask0, !a0 & mask0, a0 & !0xff, a0 & (mask0 >> 8), 1u64 << p.below(word_bytes as u64 * 8)];
+                    // sub_kind 1: every word the same (non-zero) pool value
+                    let same = pool[1 + p.below(7) as usize];
+                    for i in 0..nw0 {
+                        let v = if sub_kind == 1 { same } else { pool[p.below(8) as usize] };
+                        for k in 0..word_bytes { s[i * word_bytes + k] = (v >> (8 * k)) as u8; }
+                    }
+                    if allow_zero || s.iter().any(|&b| b != 0) {
+                        return (SEED_CLASSES[class], s);
+                    }
+                    continue;
+                }
                 let nw = len / word_bytes;
                 let rd = |s: &[u8], i: usize| -> u64 { let mut v = 0u64; for k in 0..word_bytes { v |= (s[i * word_bytes + k] as u64) << (8 * k); } v };
                 let wr = |s: &mut [u8], i: usize, v: u64| { for k in 0..word_bytes { s[i * word_bytes + k] = (v >> (8 * k)) as u8; } };
@@ -214,7 +233,11 @@ pub struct Script {
     pub readings: Vec<u64>,
     pub pos: AtomicUsize,
     pub tail_seed: u64,
+    /// fault injection: the call with this index panics (once); usize::MAX = never
+    pub fault_at: AtomicUsize,
 }
+
+pub const TIMER_FAULT_MSG: &str = "scripted timer fault (injected)";
 
 impl Script {
     pub fn reading_at(&self, i: usize) -> u64 {
@@ -238,10 +261,20 @@ pub struct ScriptedTimer(pub Arc<Script>);
 
 impl ScriptedTimer {
     pub fn new(readings: Vec<u64>, tail_seed: u64) -> Self {
-        ScriptedTimer(Arc::new(Script { readings, pos: AtomicUsize::new(0), tail_seed }))
+        ScriptedTimer(Arc::new(Script { readings, pos: AtomicUsize::new(0), tail_seed, fault_at: AtomicUsize::new(usize::MAX) }))
     }
     pub fn calls(&self) -> usize {
         self.0.pos.load(Ordering::SeqCst)
+    }
+    /// make the k-th timer call from now panic (one-shot)
+    pub fn inject_fault_after(&self, k: usize) {
+        self.0.fault_at.store(self.calls() + k, Ordering::SeqCst);
+    }
+    pub fn fault_pending(&self) -> bool {
+        self.0.fault_at.load(Ordering::SeqCst) != usize::MAX
+    }
+    pub fn clear_fault(&self) {
+        self.0.fault_at.store(usize::MAX, Ordering::SeqCst);
     }
     pub fn read(&self) -> u64 {
         let i = self.0.pos.fetch_add(1, Ordering::SeqCst);
@@ -252,6 +285,10 @@ impl ScriptedTimer {
         let s = self.0.clone();
         move || {
             let i = s.pos.fetch_add(1, Ordering::SeqCst);
+            if i == s.fault_at.load(Ordering::SeqCst) {
+                s.fault_at.store(usize::MAX, Ordering::SeqCst);
+                panic!("{}", TIMER_FAULT_MSG);
+            }
             s.reading_at(i)
         }
     }
@@ -273,10 +310,13 @@ impl Readings for ScriptCursor {
     }
 }
 
-pub const SCRIPT_CLASSES: [&str; 10] = [
+pub const SCRIPT_CLASSES: [&str; 12] = [
     "jittery", "const_delta_prefix", "arith_delta_prefix", "multiples_of_100", "backward_steps",
-    "huge_steps", "wrap_u64", "zero_readings", "tiny_jitter", "mixed",
+    "huge_steps", "wrap_u64", "zero_readings", "tiny_jitter", "mixed", "long_stall", "coarse",
 ];
+
+/// number of consecutive stuck measurements aimed at narrow-counter limits
+pub const STALL_LENGTHS: [usize; 8] = [254, 255, 256, 257, 65_534, 65_535, 65_536, 65_540];
 
 /// hostile deltas around the i32 / u32 limits
 pub const HUGE_DELTAS: [u64; 12] = [
@@ -385,6 +425,40 @@ pub fn gen_script(p: &mut Prng, class: usize, n: usize) -> Vec<u64> {
                 v.push(t);
             }
         }
+        10 => {
+            // a short healthy prefix, then a very long run of stuck measurements
+            // (frozen, evenly ticking or arithmetic-progression timer), then recovery
+            // by the never-stuck tail. `n` is ignored: the length follows the stall.
+            let pre = p.range(1, 30) as usize;
+            for _ in 0..pre {
+                t = t.wrapping_add(jitter(p));
+                v.push(t);
+            }
+            let stall = *p.pick(&STALL_LENGTHS) + p.below(3) as usize;
+            let kind = p.below(3);
+            let step = p.range(1, 1000);
+            let mut d = step;
+            for _ in 0..3 * stall + 6 {
+                match kind {
+                    0 => {}
+                    1 => t = t.wrapping_add(step),
+                    _ => { d += 2; t = t.wrapping_add(d) }
+                }
+                v.push(t);
+            }
+        }
+        11 => {
+            // coarse clock: the reading only changes every few calls, so
+            // consecutive time stamps are often EQUAL (zero deltas), with short stalls
+            let hold_max = p.range(2, 7);
+            while v.len() < n {
+                t = t.wrapping_add(jitter(p));
+                let hold = if p.chance(1, 10) { p.range(8, 140) } else { p.range(1, hold_max) };
+                for _ in 0..hold {
+                    if v.len() < n { v.push(t); }
+                }
+            }
+        }
         _ => {
             let mut i = 0;
             while i < n {
@@ -403,6 +477,23 @@ pub fn gen_script(p: &mut Prng, class: usize, n: usize) -> Vec<u64> {
         }
     }
     v
+}
+
+/// numbers of leading all-zero blocks a source delivers: small values and the
+/// neighbourhoods of plausible retry bounds
+pub const ZERO_BLOCK_COUNTS: [usize; 30] = [
+    0, 1, 2, 3, 4, 5, 7, 8, 9, 10, 11, 15, 16, 17, 31, 32, 33, 63, 64, 65, 99, 100, 101, 127, 128, 255, 256, 257, 1000, 1001,
+];
+
+/// a seed-sized block of documented special content for a type: the
+/// zero-seed substitutes (the generator must treat them as ordinary data)
+pub fn preset_block(type_name: &str, len: usize) -> Vec<u8> {
+    if type_name == "XorShiftRng" {
+        std::iter::repeat(0x0BAD_5EEDu32.to_le_bytes()).take(len / 4).flatten().collect()
+    } else {
+        // xoshiro family: the SplitMix64 stream started at 0 (what the zero seed becomes)
+        crate::models::vigna::SplitMix::expand(0, len)
+    }
 }
 
 // ---------------------------------------------------------------------------
